@@ -1,0 +1,271 @@
+//go:build verif
+// +build verif
+
+// Contracts for package gf2p16, checked by /verif/gocv. Compiled only under
+// the build tag "verif": pure specification functions plus comment-only
+// contract blocks ("//@" lines). Nothing here is reachable from the package's
+// own code.
+
+package gf2p16
+
+// specXtime multiplies a by x in GF(2)[x]/(x^16+x^12+x^3+x+1).
+func specXtime(a T) T {
+	r := a << 1
+	if a&0x8000 != 0 {
+		r ^= 0x100b
+	}
+	return r
+}
+
+// specGfmul is multiplication in GF(2^16) = GF(2)[x]/(0x1100b), by Horner's
+// rule on the bits of b: a*b = x*(a*(b>>1)) + (b&1)*a.
+func specGfmul(a, b T) T {
+	if b == 0 {
+		return 0
+	}
+	r := specXtime(specGfmul(a, b>>1))
+	if b&1 != 0 {
+		r ^= a
+	}
+	return r
+}
+
+// specPow3 is 3^k (3 = x+1 generates the multiplicative group).
+func specPow3(k int) T {
+	if k <= 0 {
+		return 1
+	}
+	return specGfmul(specPow3(k-1), 3)
+}
+
+// specGfpow is the p-fold product t*t*...*t, with t^0 = 1 (also for t = 0).
+func specGfpow(t T, p int) T {
+	if p <= 0 {
+		return 1
+	}
+	return specGfmul(specGfpow(t, p-1), t)
+}
+
+//@ frozen logTable expTable mulTable mulTable64
+
+// logExpOK: expTable[k] = 3^k, and logTable is its inverse on 1..65535.
+//@ pred logExpOK = forall(k, 0, 65535, expTable[k] == specPow3(k)) && forallv(x, T, implies(x != 0, logTable[x-1] < 65535 && expTable[logTable[x-1]] == x))
+
+// mulTableOK: the per-constant byte-split product tables used by the Go and scalar assembly kernels.
+//@ pred mulTableOK = forall(i, 0, 65536, forall(j, 0, 256, mulTable[i].s0[j] == specGfmul(T(i), T(j)) && mulTable[i].s8[j] == specGfmul(T(i), T(j<<8))))
+
+// The table invariants are closed statements about 65535+65535+2*2^24 table
+// entries written once by init; they are decided by evaluating them, with the
+// compiled spec functions, on the real initialised package (every entry).
+//@ lemma tablesLogExp
+//@   props C08 C09 C11
+//@   kind eval
+//@   ensures logExpOK
+
+//@ lemma tablesMul
+//@   props C08 C09 C11
+//@   kind eval
+//@   ensures mulTableOK
+
+// ---- lemmas about the spec functions (no code involved) ----------------
+
+//@ lemma xtimeLinear
+//@   props C08
+//@   forall a T, b T
+//@   ensures specXtime(a ^ b) == specXtime(a) ^ specXtime(b)
+
+//@ lemma mulZeroL
+//@   props C08
+//@   opaque
+//@   forall b T
+//@   ensures specGfmul(0, b) == 0
+//@   induct b := b >> 1
+
+//@ lemma mulZeroR
+//@   props C08
+//@   forall a T
+//@   ensures specGfmul(a, 0) == 0
+
+//@ lemma mulOneR
+//@   props C08
+//@   forall a T
+//@   ensures specGfmul(a, 1) == a
+
+//@ lemma mulAddR
+//@   props C08
+//@   opaque
+//@   forall a T, b T, c T
+//@   ensures specGfmul(a, b ^ c) == specGfmul(a, b) ^ specGfmul(a, c)
+//@   induct b := b >> 1; c := c >> 1
+//@   use xtimeLinear(specGfmul(a, b >> 1), specGfmul(a, c >> 1))
+
+//@ lemma mulAddL
+//@   props C08
+//@   opaque
+//@   forall a T, d T, b T
+//@   ensures specGfmul(a ^ d, b) == specGfmul(a, b) ^ specGfmul(d, b)
+//@   induct b := b >> 1
+//@   use xtimeLinear(specGfmul(a, b >> 1), specGfmul(d, b >> 1))
+
+//@ lemma mulXtimeL
+//@   props C08
+//@   opaque
+//@   forall a T, b T
+//@   ensures specGfmul(specXtime(a), b) == specXtime(specGfmul(a, b))
+//@   induct b := b >> 1
+//@   use xtimeLinear(specXtime(specGfmul(a, b >> 1)), a)
+
+//@ lemma mulTopBit
+//@   props C08
+//@   kind exhaust
+//@   forall a T
+//@   ensures specXtime(specGfmul(a, 0x8000)) == specGfmul(a, 0x100b)
+
+//@ lemma mulShiftR
+//@   props C08
+//@   opaque
+//@   forall a T, b T
+//@   requires b < 0x8000
+//@   ensures specGfmul(a, b << 1) == specXtime(specGfmul(a, b))
+
+//@ lemma mulXtimeR
+//@   props C08
+//@   opaque
+//@   forall a T, b T
+//@   ensures specGfmul(a, specXtime(b)) == specXtime(specGfmul(a, b))
+//@   use mulShiftR(a, b & 0x7fff)
+//@   use mulAddR(a, (b & 0x7fff) << 1, 0x100b)
+//@   use mulAddR(a, b & 0x7fff, 0x8000)
+//@   use mulTopBit(a)
+//@   use xtimeLinear(specGfmul(a, b & 0x7fff), specGfmul(a, 0x8000))
+
+//@ lemma mulThree
+//@   props C08
+//@   forall a T
+//@   ensures specGfmul(a, 3) == specXtime(a) ^ a
+
+//@ lemma mulAssoc3
+//@   props C08
+//@   opaque
+//@   forall x T, y T
+//@   ensures specGfmul(x, specGfmul(y, 3)) == specGfmul(specGfmul(x, y), 3)
+//@   use mulThree(y)
+//@   use mulThree(specGfmul(x, y))
+//@   use mulAddR(x, specXtime(y), y)
+//@   use mulXtimeR(x, y)
+
+// 3 has multiplicative order dividing 65535: a closed fact, evaluated.
+//@ lemma pow3Order
+//@   props C08
+//@   kind eval
+//@   ensures specPow3(65535) == 1
+
+//@ lemma pow3Zero
+//@   props C08
+//@   ensures specPow3(0) == 1
+
+//@ lemma pow3Exp
+//@   props C08
+//@   opaque
+//@   mode int
+//@   forall a int, b int
+//@   requires 0 <= a && a < 65535 && 0 <= b && b < 65535
+//@   ensures specGfmul(specPow3(a), specPow3(b)) == specPow3((a + b) % 65535)
+//@   induct b := b - 1
+//@   use mulOneR(specPow3(a))
+//@   use mulAssoc3(specPow3(a), specPow3(b - 1))
+//@   use pow3Order
+//@   unfold specPow3(65535)
+
+//@ lemma modAddMul
+//@   props C08
+//@   mode int
+//@   forall a mathint, p mathint
+//@   requires 0 <= a && 1 <= p
+//@   ensures ((a * (p - 1)) % 65535 + a) % 65535 == (a * p) % 65535
+
+//@ lemma powPow3
+//@   props C08
+//@   opaque
+//@   mode int
+//@   forall a int, p int
+//@   requires 0 <= a && a < 65535 && 0 <= p && p <= 4294967295
+//@   ensures specGfpow(specPow3(a), p) == specPow3((a * p) % 65535)
+//@   induct p := p - 1
+//@   use pow3Exp((a * (p - 1)) % 65535, a)
+//@   use modAddMul(a, p)
+
+//@ lemma powExpZero
+//@   props C08
+//@   mode int
+//@   forall t T
+//@   ensures specGfpow(t, 0) == 1
+
+//@ lemma modSub
+//@   props C08
+//@   mode int
+//@   forall a int, b int
+//@   requires 0 <= a && a < 65535 && 0 <= b && b < 65535
+//@   ensures (a + (65535 - b) % 65535) % 65535 == (a - b + 65535) % 65535
+
+//@ lemma powZero
+//@   props C08
+//@   mode int
+//@   forall p int
+//@   requires p > 0
+//@   ensures specGfpow(0, p) == 0
+
+// ---- code contracts ------------------------------------------------------
+
+//@ func (T).Plus
+//@   props C08
+//@   ensures result == t ^ u
+
+//@ func (T).Minus
+//@   props C08
+//@   ensures result == t ^ u
+
+//@ func (T).Times
+//@   opaque
+//@   props C08 C09 C11
+//@   global logExpOK
+//@   pure
+//@   ensures result == specGfmul(t, u)
+//@   uses mulZeroL(u)
+//@   uses mulZeroR(t)
+//@   uses pow3Exp(int(logTable[t-1]), int(logTable[u-1]))
+
+//@ func (T).Inverse
+//@   opaque
+//@   props C08 C11
+//@   global logExpOK
+//@   pure
+//@   panics t == 0
+//@   ensures specGfmul(t, result) == 1
+//@   ensures result == expTable[(65535-int(logTable[t-1]))%65535]
+//@   uses pow3Exp(int(logTable[t-1]), (65535-int(logTable[t-1]))%65535)
+//@   uses pow3Zero
+
+//@ func (T).Div
+//@   opaque
+//@   props C08
+//@   global logExpOK
+//@   pure
+//@   panics u == 0
+//@   ensures result == specGfmul(t, expTable[(65535-int(logTable[u-1]))%65535])
+//@   ensures specGfmul(result, u) == t
+//@   uses mulZeroL(expTable[(65535-int(logTable[u-1]))%65535])
+//@   uses mulZeroL(u)
+//@   uses modSub(int(logTable[t-1]), int(logTable[u-1]))
+//@   uses pow3Exp(int(logTable[t-1]), (65535-int(logTable[u-1]))%65535)
+//@   uses pow3Exp((int(logTable[t-1])-int(logTable[u-1])+65535)%65535, int(logTable[u-1]))
+
+//@ func (T).Pow
+//@   opaque
+//@   props C08
+//@   global logExpOK
+//@   pure
+//@   ensures result == specGfpow(t, int(p))
+//@   uses powPow3(int(logTable[t-1]), int(p))
+//@   uses powZero(int(p))
+//@   uses powExpZero(t)
